@@ -96,12 +96,22 @@ func CachedBlockstore(
 	ctx = metrics.CtxSubScope(ctx, "bs.cache")
 
 	if opts.HasTwoQueueCacheSize > 0 {
-		cbs, err = newTwoQueueCachedBS(ctx, cbs, opts.HasTwoQueueCacheSize)
+		tq, err := newTwoQueueCachedBS(ctx, cbs, opts.HasTwoQueueCacheSize)
+		if err != nil {
+			// Do not wrap a nil *tqcache in the Bloom layer below: its
+			// background build would dereference it.
+			return nil, err
+		}
+		cbs = tq
 	}
 	if opts.HasBloomFilterSize != 0 {
 		// *8 because of bytes to bits conversion
-		cbs, err = bloomCached(ctx, cbs, opts.HasBloomFilterSize*8, opts.HasBloomFilterHashes)
+		bc, err := bloomCached(ctx, cbs, opts.HasBloomFilterSize*8, opts.HasBloomFilterHashes)
+		if err != nil {
+			return nil, err
+		}
+		cbs = bc
 	}
 
-	return cbs, err
+	return cbs, nil
 }
